@@ -20,9 +20,10 @@ included), setRange/clearRange (3-segment split), copyRange (byte fast path + ch
 (DefaultConfig and ExtendedConfig specialisations), resize, operator==, allOne/allZero/allDefined/anyDefined, extract(start,size),
 insert(state,…), append, extractBigInt / insertBigInt (≤ 64 bit path and word-aligned wide path, negative values as two's complement) and their round trip, and arbitrary operation sequences.
 Literals: `parseBitVector` on `x` / `o` / `b` literals of any length with or without explicit width equals the grammar's bit array
-(`literal_digits_spec`, `parseBitVector_digits_spec`); binary text round trip.
+(`literal_digits_spec`, `parseBitVector_digits_spec`); `d` literals denote their number in `Log2C(n+1)` bits or the explicit width
+(`decimal_literal_spec`); binary text round trip.
 Covered by correspondence only (driver compares model AND spec with the implementation, no theorem yet):
-decimal (`d`) and string (`s`) literals and formatting (`operator<<` binary / hex).
+string (`s`) literals and formatting (`operator<<` binary / hex).
 -/
 namespace Gatery.C18.Props
 open Gatery.C18 Gatery.Gen
@@ -186,6 +187,15 @@ theorem parseBitVector_digits_spec (s : String) (width : Option Nat) (tag : Char
 
 example : resultBits (parseBitVector "10xA3") = specDigits 4 ['A', '3'] (some 10) := by
   rw [parseBitVector_digits_spec "10xA3" (some 10) 'x' ['A', '3'] (by decide) 4 (Or.inl ⟨rfl, rfl⟩)]; decide
+
+/-- **Decimal literals.** A `d` literal denotes its number `n`: rejected for `n ≥ 2^64` (strtoull range) or when the explicit width is
+    smaller than the `Log2C(n+1)` bits it needs (64 for `2^64-1`, fix 27bc7d0); otherwise bit `i` of the result is bit `i` of `n`, all defined,
+    in exactly `Log2C(n+1)` bits or in the explicit width. Non-digits after `d` are a design error. -/
+theorem decimal_literal_spec (s : String) (width : Option Nat) (num : List Char) (h : splitWidth s.toList = (width, 'd' :: num)) :
+    resultBits (parseBitVector s) = if num.all isDigit then specDec num width else none := parseBitVector_dec s width num h
+
+example : resultBits (parseBitVector "8d37") = some ((List.range 8).map fun i => some (Nat.testBit 37 i)) := by
+  rw [decimal_literal_spec "8d37" (some 8) ['3', '7'] (by decide)]; decide
 
 /-- Formatting then parsing (grammar level): the binary text of any four-state vector, read as a `b` literal, denotes that vector. -/
 theorem binary_text_round_trip (bits : List (Option Bool)) :
